@@ -285,8 +285,9 @@ theorem permuted_lines_same_answer (F : Facts) (defsText queryText : List Char) 
 /-- **The program over a split input prints the table of the merged summaries of the parts** (C15, input split, at program
 level). Input files `files₁` followed by `files₂` (any bytes; e.g. one file each), an aggregate statement text without join
 whose aggregates are order-insensitive. Whenever the runs over the two parts are prepared (`p₁`, `p₂`: tables defined, facts
-shipped — the run over all files is then prepared too), the specification `Spec.Agg.batch` answers with an empty deviation
-class for the rows extracted from `files₁`, from `files₂` and from all files, and `SplitSafe` holds per group (the provisos of
+shipped — the run over all files is then prepared too), the specification `Spec.Agg.batch` answers for the rows extracted
+from `files₁`, from `files₂` and from all files — with an empty deviation class for the two parts; the class `cls` of the whole
+is then empty too —, and `SplitSafe` holds per group (the provisos of
 `Props/C15.lean`): there are keyed summaries `S₁`, `S₂` — `Sᵢ = partSummaries` of the rows extracted from part i, what that
 part has to remember — such that the program's answer over part i is the rendering, in the requested format, of the one table
 `tableOfSummaries … Sᵢ` (`tableTrace`: `Ok`, the part's lines counted, one final print call), and its answer over
@@ -295,7 +296,7 @@ the whole input is determined by the per-part summaries. `StmtWF` is discharged 
 theorem split_input_is_merge_of_summaries (F : Facts) (defsText queryText : List Char) (fmt : Print.Format) (single : Bool)
     (files₁ files₂ : List (List Nat))
     (defs : LStmt) (tables : List Table) (a : AggStmt) (fromTable : String) (file : Option String) (p₁ p₂ : Prepared)
-    (ro ro₁ ro₂ : RunOut)
+    (ro ro₁ ro₂ : RunOut) (cls : String)
     (hc : classesCover F defsText = true ∧ classesCover F queryText = true)
     (hd : parseText (lexOracles F) (regexValidFn F) defsText = .stmt defs)
     (hp : (createPatterns defs).all (fun re => ((Utf8.decode re).bind (regexValidOf F)).isSome) = true)
@@ -304,7 +305,7 @@ theorem split_input_is_merge_of_summaries (F : Facts) (defsText queryText : List
     (hprep₁ : prepare F tables (.aggregate a) fromTable none files₁ = some p₁)
     (hprep₂ : prepare F tables (.aggregate a) fromTable none files₂ = some p₂)
     (hOI : ∀ kind ∈ slotKinds a, orderInsensitive kind = true)
-    (hb : Spec.Agg.batch F.eval p₁.qy a p₁.joined (p₁.files ++ p₂.files) = some (ro, ""))
+    (hb : Spec.Agg.batch F.eval p₁.qy a p₁.joined (p₁.files ++ p₂.files) = some (ro, cls))
     (hb₁ : Spec.Agg.batch F.eval p₁.qy a p₁.joined p₁.files = some (ro₁, ""))
     (hb₂ : Spec.Agg.batch F.eval p₂.qy a p₂.joined p₂.files = some (ro₂, ""))
     (hsafe : ∀ k₁ k₂, keyedRows F.eval a (envsOf p₁.qy.table p₁.files.flatten) = some k₁ →
